@@ -37,6 +37,7 @@ def run(ctx):
     c_tracing_unwrap(ctx)
     d_refusal_skips_output(ctx)
     c_response_shapes(ctx)
+    a_options_always_published(ctx)
 
 
 def a_tables(ctx, flows):
@@ -440,6 +441,51 @@ def b_retrieval_reentry(ctx, flows):
                   "the retrieval rails are not re-entered for a bot message that a retrieval rail itself produced" if ok else
                   "the retrieval rails run for every bot intent, including the refusal a blocking retrieval rail utters: the rail runs again for its own refusal and blocks again until "
                   "generate_events raises 'Too many events.' - the refusal is never returned (guards: %s)" % conds, line=s.line)
+
+
+def a_options_always_published(ctx):
+    """The flows read `$generation_options` from the CONTEXT, and the context of a conversation continued from a `state` keeps what an earlier call put there.  Whenever this call
+    has an options object - given by the caller or created because a state was passed - it must be written into the context, otherwise the rails selection of the PREVIOUS call
+    (e.g. `rails.output = False`) stays in force for this one.  Decided: with a truthy `options`, no path from the place the object exists to the runtime call misses the
+    context message that carries it."""
+    t = ctx.tree.ast(LLMRAILS)
+    ga = find_function(t, "generate_async")
+    if ga is None:
+        raise AnalysisError("generate_async not found", anchor=LLMRAILS + "::generate_async")
+    from ..source import truth as _truth, expand_flags as _expand
+    cfg = CFG(ga)
+    publish = [n for n in cfg.nodes if n.kind == "stmt" and n.ast is not None and any(
+        isinstance(c, ast.Constant) and c.value == "generation_options" for c in ast.walk(n.ast)) and any(
+        isinstance(c, ast.Constant) and c.value == "context" for c in ast.walk(n.ast))]
+    runs = [n for n in cfg.nodes if n.ast is not None and any(isinstance(c, ast.Call) and src(c.func) in ("self.runtime.generate_events", "self.runtime.process_events") for c in walk_no_nested(n.ast))]
+    creates = [n for n in cfg.nodes if n.kind == "stmt" and isinstance(n.ast, ast.Assign) and src(n.ast.targets[0]) == "options" and isinstance(n.ast.value, ast.Call)
+               and src(n.ast.value.func) == "GenerationOptions"]
+    ctx.floor("C16.a.options-published", LLMRAILS, "statements that put the generation options into the context", len(publish), 1)
+    ctx.floor("C16.a.options-published", LLMRAILS, "places where an options object is created for the call", len(creates), 1)
+    facts = {"options": True, "options is None": False, "options is not None": True}
+    leak = None
+    for c in creates + [cfg.entry]:
+        seen, stack = set(), [c]
+        f = dict(facts) if c is not cfg.entry else {}
+        if c is cfg.entry:
+            # a caller-supplied object: the same obligation under the assumption that `options` is given
+            f = dict(facts)
+        while stack:
+            x = stack.pop()
+            if x in seen or x in publish or x is cfg.raise_exit:
+                continue
+            seen.add(x)
+            tv = _truth(_expand(x.ast, ga), f) if x.kind == "test" and isinstance(x.ast, ast.expr) else None
+            stack.extend(m for m, lab in x.succ if not (tv is not None and lab in (True, False) and lab is not tv))
+        hit = [r for r in runs if r in seen]
+        if hit:
+            leak = (c, hit[0])
+            break
+    ok = bool(runs) and leak is None
+    ctx.check("C16.a.options-published", LLMRAILS, "LLMRails.generate_async", "options of this call reach the context", ok,
+              "whenever the call has an options object it is written into the context before the runtime runs" if ok else
+              "the runtime can be reached with an options object that was not written into the context (from line %s): a call with `state=` and no options keeps the `$generation_options` "
+              "of the previous call - e.g. output rails switched off once stay off" % (leak[0].line if leak and leak[0].line else "entry"), line=(leak[1].line if leak else ga.lineno))
 
 
 def b_event_budget(ctx):
